@@ -647,7 +647,9 @@ pub fn eval_case(case: &Case, mut drv: Option<&mut Drv>, pools: &Pools, tune: &T
         let mut world = full_world();
         let mut ps = ParSeq::new(root, pool);
         // setup
-        if let Err(e) = catch_unwind(AssertUnwindSafe(|| ps.setup(&mut world))) {
+        // every other tree is set up / dispatched through `impl RunNow for ParSeq` (par_seq.rs l.238)
+        let via_trait = leaves.len() % 2 == 1;
+        if let Err(e) = catch_unwind(AssertUnwindSafe(|| if via_trait { shred::RunNow::setup(&mut ps, &mut world) } else { ps.setup(&mut world) })) {
             res.impl_v.push(("setup".into(), format!("ParSeq::setup panicked: {}", panic_message(&e))));
             return res;
         }
@@ -695,7 +697,9 @@ pub fn eval_case(case: &Case, mut drv: Option<&mut Drv>, pools: &Pools, tune: &T
             }
             let w = &world;
             let out = catch_unwind(AssertUnwindSafe(|| match rc.mode {
+                0 if via_trait => shred::RunNow::run_now(&mut ps, w),
                 0 => ps.dispatch(w),
+                1 if via_trait => pool.install(|| shred::RunNow::run_now(&mut ps, w)),
                 1 => pool.install(|| ps.dispatch(w)),
                 _ => pools.other.install(|| ps.dispatch(w)),
             }));
